@@ -1112,8 +1112,24 @@ def g_preset(R, tier):
         R.check(f"{base}/__next__-advances-the-source-iterator-exactly-once-otherwise", adv, ast.unparse(ast.fix_missing_locations(ast.Expression(b.orelse))),
                 backend="exhaustive-finite", replay=dict(kind="skeleton"))
 
-GROUPS = {"iter_branch": g_iter_branch, "iter_branch_steps": g_iter_branch_steps, "iter_nodes": g_iter_nodes, "interrupts": g_interrupts, "while": g_while, "for": g_for, "function_frame": g_function_frame, "preset": g_preset, "canary": c13.g_canary}
+GROUPS = {"iter_branch": g_iter_branch, "iter_branch_steps": g_iter_branch_steps, "iter_nodes": g_iter_nodes, "interrupts": g_interrupts, "while": g_while, "for": g_for, "function_frame": g_function_frame, "preset": g_preset, "if": None, "canary": c13.g_canary}
 REPLAY = {}
+
+
+def _g_if(R, tier):
+    from suites import c07
+    c07.g_if(R, tier)
+
+
+GROUPS["if"] = _g_if
+
+
+def _g_iso(R, tier):
+    from suites import c06
+    c06.g_namespace_isolation(R, tier)
+
+
+GROUPS["namespace_isolation"] = _g_iso
 
 
 # ----------------------------------------------------------------------------------------
